@@ -25,6 +25,9 @@ ATTRS = {
     'nbdime-diff-nonl': RULES + '\n*.ipynb\tdiff=jupyternotebook',
     'nbdime-merge-nl': '*.ipynb\tmerge=jupyternotebook\n' + RULES + '\n',
     'nbdime-oneline': RULES + '\n*.ipynb diff=jupyternotebook merge=jupyternotebook\n',
+    # the driver names occur, but not in a rule that routes *.ipynb: lines the user commented out, a rule for one directory only
+    'nbdime-commented': RULES + '\n# *.ipynb\tdiff=jupyternotebook\n# *.ipynb\tmerge=jupyternotebook\n',
+    'nbdime-subdir-only': 'docs/*.ipynb diff=jupyternotebook merge=jupyternotebook\n' + RULES + '\n',
 }
 # 'corefile+stale': core.attributesfile is set AND a left-over default file ~/.config/git/attributes still exists (git ignores it)
 LOCS = ['default', 'xdg', 'corefile', 'corefile+stale']
@@ -332,16 +335,24 @@ def _multimap(kvs):
     return m
 
 
+def _own_line(ln):
+    "a rule that routes *.ipynb to nbdime's drivers and does nothing else (what enable writes; also the one-line form)"
+    parts = ln.split()
+    return len(parts) >= 2 and parts[0] == '*.ipynb' and all(p in ('diff=jupyternotebook', 'merge=jupyternotebook') for p in parts[1:])
+
+
 def _foreign_lines(data):
+    "every other non-blank line: unrelated rules, comments (also ones that mention the drivers), rules for other patterns"
     if data is None:
         return []
-    return [ln for ln in data.decode('utf8', 'replace').split('\n') if ln.strip() and 'jupyternotebook' not in ln]
+    return [ln for ln in data.decode('utf8', 'replace').split('\n') if ln.strip() and not _own_line(ln)]
 
 
 def _count(data, needle):
+    "number of rules for *.ipynb that carry the attribute"
     if data is None:
         return 0
-    return sum(1 for ln in data.decode('utf8', 'replace').split('\n') if needle in ln)
+    return sum(1 for ln in data.decode('utf8', 'replace').split('\n') if ln.split()[:1] == ['*.ipynb'] and needle in ln.split()[1:])
 
 
 def describe_diff(before, after):
